@@ -92,6 +92,10 @@ fn apply(st: &mut TState, op: &MtOp) {
     }
 }
 
+fn args_sleep_ms() -> u64 {
+    std::env::var("FJV_VICTIM_SLEEP_MS").ok().and_then(|x| x.parse().ok()).unwrap_or(3)
+}
+
 pub fn child_main(args: &Args) -> i32 {
     let dir = PathBuf::from(args.str("dir", ""));
     let threads = args.u64("threads", 3) as usize;
@@ -169,7 +173,49 @@ pub fn child_main(args: &Args) -> i32 {
                     .expect("spawn"),
             );
         }
+        // optional lifecycle thread: a lagging keyspace `victim` (64 MiB memtable, never flushed: its writes pin the
+        // sealed journals) is written, then deleted while the clients and the workers are busy
+        let victim_n = args.u64("victim", 0) as usize;
+        let victim_thread = if victim_n > 0 {
+            let db = db.clone();
+            Some(
+                std::thread::Builder::new()
+                    .name("victim".into())
+                    .spawn(move || -> Result<(), String> {
+                        let ks = db
+                            .keyspace("victim", || KeyspaceCreateOptions::default().max_memtable_size(64 << 20))
+                            .map_err(|e| format!("victim keyspace: {e:?}"))?;
+                        write_mark("VC ok\n");
+                        for i in 0..victim_n {
+                            write_mark(&format!("VS {i}\n"));
+                            ks.insert(format!("vic-{i:03}"), format!("victim-value-{i}")).map_err(|e| format!("victim insert: {e:?}"))?;
+                            write_mark(&format!("VA {i}\n"));
+                            if i % 4 == 3 {
+                                std::thread::sleep(std::time::Duration::from_millis(1));
+                            }
+                        }
+                        std::thread::sleep(std::time::Duration::from_millis(args_sleep_ms()));
+                        write_mark("VD begin\n");
+                        let r = db.delete_keyspace(ks);
+                        match r {
+                            Ok(()) => write_mark("VD ok\n"),
+                            Err(e) => return Err(format!("delete victim: {e:?}")),
+                        }
+                        Ok(())
+                    })
+                    .expect("spawn"),
+            )
+        } else {
+            None
+        };
         let mut err = None;
+        if let Some(h) = victim_thread {
+            match h.join() {
+                Ok(Ok(())) => {}
+                Ok(Err(e)) => err = Some(e),
+                Err(_) => err = Some("victim thread panicked".to_string()),
+            }
+        }
         for h in hs {
             match h.join() {
                 Ok(Ok(())) => {}
@@ -197,6 +243,9 @@ pub fn child_main(args: &Args) -> i32 {
         }
     }
 }
+
+/// number of writes of the victim-keyspace thread in the next child (0 = no such thread)
+static VICTIM: std::sync::atomic::AtomicU64 = std::sync::atomic::AtomicU64::new(0);
 
 struct Run {
     recs: Vec<Rec>,
@@ -239,7 +288,9 @@ fn run_child2(seed: u64, threads: usize, n: usize, workers: usize, scale: u64, m
         .arg("--memtable")
         .arg(memtable.to_string())
         .arg("--drawn-delay-us")
-        .arg(drawn_delay_us.to_string());
+        .arg(drawn_delay_us.to_string())
+        .arg("--victim")
+        .arg(VICTIM.load(std::sync::atomic::Ordering::Relaxed).to_string());
     if tolerant {
         cmd.arg("--tolerant");
     }
@@ -288,6 +339,7 @@ fn dump_to_thread_states(d: &BTreeMap<String, Map>, threads: usize) -> Result<Ve
         let ks: u8 = match name.as_str() {
             "m0" => 0,
             "m1" => 1,
+            "victim" => continue,
             other => return Err(format!("unexpected keyspace {other}")),
         };
         for (k, v) in m {
@@ -306,6 +358,19 @@ fn dump_to_thread_states(d: &BTreeMap<String, Map>, threads: usize) -> Result<Ve
     Ok(out)
 }
 
+/// C10 / C12 runs: every case has the victim-keyspace thread
+pub static VICTIM_MODE: std::sync::atomic::AtomicBool = std::sync::atomic::AtomicBool::new(false);
+
+/// Progress of the victim thread at a trace index.
+#[derive(Clone, Copy, Default, PartialEq, Eq, PartialOrd, Ord)]
+struct Vic {
+    created: bool,
+    started: usize,
+    acked: usize,
+    del_begin: bool,
+    del_ok: bool,
+}
+
 fn crash_case(seed: u64, idx: u64, thorough: bool, stats: &mut Counts) -> Result<String, Deviation> {
     let mut rng = Rng::new(mix(&[seed, idx, 0x2222]));
     let threads = rng.range(2, 4) as usize;
@@ -314,8 +379,15 @@ fn crash_case(seed: u64, idx: u64, thorough: bool, stats: &mut Counts) -> Result
     let scale = if rng.chance(1, 2) { 16_000 } else { 1 };
     let memtable = *rng.pick(&[1_024u64, 4_096]);
     let cseed = mix(&[seed, idx]);
-    let desc = format!("mt crash threads={threads} ops/thread={n} workers={workers} journal_scale={scale} memtable={memtable}");
-    let run = run_child(cseed, threads, n, workers, scale, memtable, false, None)?;
+    let victim_n: u64 = if VICTIM_MODE.load(std::sync::atomic::Ordering::Relaxed) || rng.chance(1, 3) { rng.range(4, 16) } else { 0 };
+    // with the victim thread the journal has to rotate, so that the victim's writes sit in sealed journals
+    let scale = if VICTIM_MODE.load(std::sync::atomic::Ordering::Relaxed) { 16_000 } else { scale };
+    let workers = if VICTIM_MODE.load(std::sync::atomic::Ordering::Relaxed) { 2 } else { workers };
+    VICTIM.store(victim_n, std::sync::atomic::Ordering::Relaxed);
+    let desc = format!("mt crash threads={threads} ops/thread={n} workers={workers} journal_scale={scale} memtable={memtable} victim_writes={victim_n}");
+    let run = run_child(cseed, threads, n, workers, scale, memtable, false, None);
+    VICTIM.store(0, std::sync::atomic::Ordering::Relaxed);
+    let run = run?;
     let res = (|| -> Result<String, Deviation> {
         if run.status != Some(0) {
             return Err(Deviation::new("child:deviation", format!("recorded execution failed: {}", run.stdout.chars().take(400).collect::<String>())));
@@ -325,12 +397,13 @@ fn crash_case(seed: u64, idx: u64, thorough: bool, stats: &mut Counts) -> Result
         let mut started = vec![0usize; threads];
         let mut fs = FsImg::default();
         let mut worker = Worker::spawn();
-        let mut seen: BTreeSet<(u64, Vec<usize>, Vec<usize>)> = BTreeSet::new();
+        let mut seen: BTreeSet<(u64, Vec<usize>, Vec<usize>, Vic)> = BTreeSet::new();
+        let mut vic = Vic::default();
         let creation_end = run.recs.iter().position(|r| r.kind == K_MARK && r.data.starts_with(b"O ok")).unwrap_or(0);
         let total = run.recs.len();
         stats.add("mt.trace_records", total as u64);
-        let mut check = |fs: &FsImg, acked: &[usize], started: &[usize], what: String, worker: &mut Worker, stats: &mut Counts| -> Result<(), Deviation> {
-            if !seen.insert((fs.digest(false), acked.to_vec(), started.to_vec())) {
+        let mut check = |fs: &FsImg, acked: &[usize], started: &[usize], vic: Vic, what: String, worker: &mut Worker, stats: &mut Counts| -> Result<(), Deviation> {
+            if !seen.insert((fs.digest(false), acked.to_vec(), started.to_vec(), vic)) {
                 return Ok(());
             }
             let dir = fs.materialize(false).map_err(|e| Deviation::new("inconclusive:io", format!("{e}")))?;
@@ -349,6 +422,37 @@ fn crash_case(seed: u64, idx: u64, thorough: bool, stats: &mut Counts) -> Result
             }
             let d = parse_dump(reply.strip_prefix("ok ").unwrap_or("")).ok_or_else(|| Deviation::new("inconclusive:protocol", "bad dump"))?;
             let per = dump_to_thread_states(&d, threads).map_err(|e| Deviation::new("crash:foreign-data", format!("{what}: {e}")))?;
+            // the victim keyspace: once its creation was acknowledged and until its deletion began it must exist; while it
+            // exists it holds a prefix of its writes between acknowledged and started (all of them once the deletion
+            // began: nothing is written after that); once the deletion was acknowledged it must be gone for good
+            if victim_n > 0 {
+                let got = d.get("victim");
+                if vic.created && !vic.del_begin && got.is_none() {
+                    return Err(Deviation::new("crash:keyspace-lost", format!("{what}: keyspace victim was created (acknowledged) and not being deleted, but is missing after recovery")));
+                }
+                if vic.del_ok && got.is_some() {
+                    return Err(Deviation::new("crash:deleted-keyspace-back", format!("{what}: delete_keyspace(victim) had returned, but the keyspace exists after recovery")));
+                }
+                if let Some(m) = got {
+                    let have: usize = m.len();
+                    let ok_content = m.iter().enumerate().all(|(i, (k, v))| k == format!("vic-{i:03}").as_bytes() && v == format!("victim-value-{i}").as_bytes());
+                    if !ok_content || have < vic.acked || have > vic.started {
+                        return Err(Deviation::new(
+                            if have < vic.acked { "crash:acknowledged-write-lost" } else { "crash:not-a-prefix-state" },
+                            format!(
+                                "{what}: keyspace victim exists after recovery with {have} of its writes (a contiguous prefix: {ok_content}), but {} were acknowledged and {} started (deletion begun: {}, acknowledged: {})",
+                                vic.acked, vic.started, vic.del_begin, vic.del_ok
+                            ),
+                        ));
+                    }
+                    stats.inc("mt.victim_present_checks");
+                    if vic.del_begin {
+                        stats.inc("mt.victim_present_during_deletion");
+                    }
+                } else if vic.del_begin {
+                    stats.inc("mt.victim_absent_checks");
+                }
+            }
             for t in 0..threads {
                 let lo = acked[t];
                 let hi = started[t].min(states[t].len() - 1);
@@ -381,7 +485,7 @@ fn crash_case(seed: u64, idx: u64, thorough: bool, stats: &mut Counts) -> Result
                 if k > 0 { format!("{} {}", kind_name(run.recs[k - 1].kind), short_path(&run.recs[k - 1].p1)) } else { "none".into() }
             );
             if prev_mut && k > creation_end {
-                check(&fs, &acked, &started, what.clone(), &mut worker, stats)?;
+                check(&fs, &acked, &started, vic, what.clone(), &mut worker, stats)?;
             }
             if k == total {
                 break;
@@ -401,6 +505,22 @@ fn crash_case(seed: u64, idx: u64, thorough: bool, stats: &mut Counts) -> Result
                             acked[t] = acked[t].max(i + 1);
                         }
                     }
+                    Some("VC") => vic.created = true,
+                    Some("VS") => {
+                        if let Some(i) = it.next().and_then(|x| x.parse::<usize>().ok()) {
+                            vic.started = vic.started.max(i + 1);
+                        }
+                    }
+                    Some("VA") => {
+                        if let Some(i) = it.next().and_then(|x| x.parse::<usize>().ok()) {
+                            vic.acked = vic.acked.max(i + 1);
+                        }
+                    }
+                    Some("VD") => match it.next() {
+                        Some("begin") => vic.del_begin = true,
+                        Some("ok") => vic.del_ok = true,
+                        _ => {}
+                    },
                     _ => {}
                 }
             }
@@ -409,7 +529,7 @@ fn crash_case(seed: u64, idx: u64, thorough: bool, stats: &mut Counts) -> Result
                     let mut f2 = fs.clone();
                     f2.apply(&run.root, r, Some(j));
                     stats.inc("mt.torn_variants");
-                    check(&f2, &acked, &started, format!("{what} torn: first {j} of {} bytes", r.data.len()), &mut worker, stats)?;
+                    check(&f2, &acked, &started, vic, format!("{what} torn: first {j} of {} bytes", r.data.len()), &mut worker, stats)?;
                 }
             }
             fs.apply(&run.root, r, None);
@@ -662,6 +782,7 @@ pub fn main(args: &Args) -> i32 {
     let from = args.u64("from", 0);
     let to = args.u64("to", 2);
     let thorough = args.str("tier", "quick") == "thorough";
+    VICTIM_MODE.store(property == "C10" || property == "C12", std::sync::atomic::Ordering::Relaxed);
     crate::watchdog::start(args.u64("case-timeout-s", 900));
     let mut total = Counts::default();
     let mut violations = 0;
